@@ -13,11 +13,41 @@ sys.path.insert(0, os.path.dirname(os.path.dirname(os.path.abspath(__file__))))
 from nlv import overlay as ov  # noqa: E402
 
 
+def replay(prop, path):
+    """Re-run a recorded counterexample against the real interpreter built from /repo's current tree."""
+    import re
+    text = open(path).read()
+    m = re.search(r"### PROGRAM\n(.*?)\n### (VARIANT|NATIVE)", text, re.S)
+    if not m:
+        print(text)
+        print("(this replay file holds a Kani concrete-playback test; run the property check to regenerate and execute it)")
+        return 0
+    from nlv.nlsym import driver
+    nat = driver.Native()
+    try:
+        f = driver.Finding("replay", "", m.group(1), "")
+        mv = re.search(r"### VARIANT\n(.*?)\n### NATIVE", text, re.S)
+        if mv:
+            f.variant_source = mv.group(1)
+            ok = driver.confirm_pair(nat, f)
+        else:
+            ok = driver.confirm(nat, f)
+        print("program:", f.source)
+        print("native:", f.native)
+        print("REPRODUCED" if ok else "not reproduced on the current tree")
+        return 1 if ok else 0
+    finally:
+        nat.close()
+
+
 def main():
     ap = argparse.ArgumentParser()
     ap.add_argument("prop")
     ap.add_argument("--tier", default=os.environ.get("VERIF_TIER") or "quick")
+    ap.add_argument("--replay", default=None, help="replay file written by an earlier run")
     a = ap.parse_args()
+    if a.replay:
+        return replay(a.prop, a.replay)
     seed = int(os.environ.get("VERIF_SEED", "0") or 0)
     from nlv import props
     fn = props.PROPS.get(a.prop)
